@@ -13,8 +13,10 @@ Transcribed from noodles-bed
 
 The reader keeps one flat buffer `buf` of all field bytes (delimiters removed) and the list of field
 ends; an accessor slices `buf[ends[i-1] .. ends[i]]`. The model keeps exactly that representation
-(the standard-field ends and the other-field ends are one list here), including the quirk that the
-CR stripped at a line end is popped from the *buffer*, whatever field it belonged to.
+(the standard-field ends and the other-field ends are one list here). The CR stripped at a line
+end is looked for in the bytes of the field that ends there (`dst[start..]`, code after
+`text-record-cr.diff`; before it the CR was popped off the whole buffer, whatever field it belonged
+to, and the accessors of `sq0<TAB>1<CR><TAB><LF>` sliced out of range).
 -/
 namespace Noodles.Bed
 open Noodles.Gff (Bytes Err TAB LF CR MISSING parseUsize USIZE_MAX)
@@ -120,7 +122,7 @@ def writeRecord (r : Record) : Except Err Bytes :=
 
 /-- `read_field`: bytes up to the first TAB or LF (or the end of input) are appended to `dst`;
 returns the new buffer, the number of input bytes consumed, whether the delimiter was LF, and the
-remaining input. At LF one trailing CR is popped from the *buffer*. -/
+remaining input. At LF one trailing CR of the field itself is dropped. -/
 def readField (src dst : Bytes) : Bytes × Nat × Bool × Bytes :=
   let f := src.takeWhile (fun b => b ≠ TAB ∧ b ≠ LF)
   match src.drop f.length with
@@ -128,7 +130,7 @@ def readField (src dst : Bytes) : Bytes × Nat × Bool × Bytes :=
   | d :: rest =>
     let dst' := dst ++ f
     if d = LF then
-      ((if dst'.getLast? = some CR then dst'.dropLast else dst'), f.length + 1, true, rest)
+      ((if f.getLast? = some CR then dst ++ f.dropLast else dst'), f.length + 1, true, rest)
     else (dst', f.length + 1, false, rest)
 
 /-- `skip_comment_lines` + `discard_line`: drop leading lines that start with `#` -/
